@@ -259,6 +259,15 @@ fn check_field(field: &JavaStr) -> Result<()> {
 	Ok(())
 }
 
+/// A descriptor is written as the string it holds, so it must hold one: an unpaired surrogate would
+/// be written as U+FFFD, and read back as another descriptor.
+fn check_desc(desc: &JavaStr) -> Result<()> {
+	if desc.as_str().is_err() {
+		bail!("cannot write the descriptor {desc:?} as a field of a tiny v2 line: it contains an unpaired surrogate");
+	}
+	check_field(desc)
+}
+
 fn check_names<const N: usize, T: AsRef<JavaStr>>(names: &Names<N, T>) -> Result<()> {
 	names.names().iter().flatten().try_for_each(|name| check_field(name.as_ref()))
 }
@@ -271,11 +280,11 @@ fn check_fields<const N: usize, Ns>(mappings: &Mappings<N, Ns>) -> Result<()> {
 	for class in mappings.classes.values() {
 		check_names(&class.info.names)?;
 		for field in class.fields.values() {
-			check_field(field.info.desc.as_inner())?;
+			check_desc(field.info.desc.as_inner())?;
 			check_names(&field.info.names)?;
 		}
 		for method in class.methods.values() {
-			check_field(method.info.desc.as_inner())?;
+			check_desc(method.info.desc.as_inner())?;
 			check_names(&method.info.names)?;
 			for parameter in method.parameters.values() {
 				check_names(&parameter.info.names)?;
